@@ -401,6 +401,22 @@ def run_config(cfg, res):
             res.count('frames_with_globals_rejected_whole')
           frames.append(frame(pk))
           items.extend(its)
+        elif c < 0.50:
+          # a python2 sender (names are 8-bit strings) with one name that is not UTF-8: that entry can never be a datapoint
+          # under any name; its neighbours in the frame may or may not survive
+          ents, its = [], []
+          for _ in range(r.randint(1, 5)):
+            idx += 1
+            if r.random() < 0.5:
+              nm = ('x%d.bad.py2ok' % idx)
+              ents.append((nm.encode('utf-8'), (r.randrange(1, 10 ** 9), r.randrange(0, 1000))))
+              its.append(('opt', nm))
+            else:
+              ents.append((r.choice([b'caf\xe9.req%d', b'\xff\xfe.x%d', b'trunc\xe2\x82.%d', b'over\xc0\xaf.%d']) % idx, (r.randrange(1, 10 ** 9), 1)))
+              its.append(('bad', None))
+          frames.append(codec.encode_pickle_frame_py2_raw(ents, protocol=r.randrange(0, 3), r=r))
+          items.extend(its)
+          res.count('python2_frames_with_undecodable_names')
         elif c < 0.55:
           idx += 1
           top = r.choice([5, None, 'str', b'bytes', 1.5, True, {'a': 1}, {('x%d.bad' % idx, (1, 2))}, {('x%d.bad' % idx, (1, 2)): 1}, (), [], set()])
